@@ -45,6 +45,8 @@ inductive LeafKind
   | pkgFundamental (msg : Str) (st : Stack)
   | unimplemented (msg url det : Str)
   | testErr
+  | grpcStatus (code : Nat) (msg : Str) (nd : Nat)    -- *status.Error (google.golang.org/grpc)
+  | gogoStatus (code : Nat) (msg : Str) (nd : Nat)    -- *status.statusError (github.com/gogo/status)
   | opaqueLeaf (msg : Str) (d : Det) (hid : List Enc)
   | user (u : UserTy) (msg : Str)
   deriving Repr, Inhabited
@@ -119,6 +121,8 @@ def LeafKind.ty : LeafKind → TyName
   | .pkgFundamental .. => tn! "github.com/pkg/errors" "*errors.fundamental"
   | .unimplemented .. => tn! "github.com/cockroachdb/errors/issuelink" "*issuelink.unimplementedError"
   | .testErr => tn! "github.com/cockroachdb/errors/errorspb" "*errorspb.TestError"
+  | .grpcStatus .. => tn! "google.golang.org/grpc/internal/status" "*status.Error"
+  | .gogoStatus .. => tn! "github.com/gogo/status" "*status.statusError"
   | .opaqueLeaf .. => tnOpaqueLeaf
   | .user u _ => ⟨u.name, u.tstr⟩
 
